@@ -1,11 +1,12 @@
 import Driver.Codec
+import TakVerif.Impl.Bot
 namespace Driver
 open Tak
 
 /-- driver state: the Zobrist basis sent by the harness; per-module session state is added by the modules -/
 structure St where
   basis : Array W := Array.replicate 64 0#64
-deriving Inhabited
+  bot : Option Tak.Bot.Session := none      -- C07: the bot game of the current `case`
 
 /-- a handler returns `none` when the op is not its own -/
 abbrev Handler := St → String → List String → Option (St × String)
